@@ -72,6 +72,8 @@ func C04(r *Run) {
 	}
 	st := modelFiles(r, "C04")
 	FilesShardFraction = 1
+	sst := modelStreams(r, r.Pick(4, 6))
+	r.Logf("stream model: %d line sequences read as YAML and TOML, LF and CRLF", sst.Replayed)
 	r.Logf("model: %d (chain, format assignment) layouts replayed", st.Replayed)
 	g := gen.New(r.Seed*715225739 + 4)
 	g.NullP, g.ReqP = 0, 0
